@@ -33,6 +33,8 @@ def _base_ref(e):
         return []
     if e.k == "DeclRefExpr":
         return [e]
+    if e.k == "MemberExpr" and not e.get("arrow") and e.c:
+        return _base_ref(e.c[0])          # a member of a struct object that lives in a variable
     if e.k == "BinaryOperator" and e.op in ("+", "-") and "*" in (e.t or ""):
         return _base_ref(e.c[0]) + (_base_ref(e.c[1]) if "*" in (_strip(e.c[1]).t or "") else [])
     if e.k == "ConditionalOperator":
@@ -50,6 +52,8 @@ def _calls_in(e):
         return []
     if e.k == "CallExpr":
         return [e]
+    if e.k == "MemberExpr" and not e.get("arrow") and e.c:
+        return _calls_in(e.c[0])
     if e.k == "BinaryOperator" and e.op in ("+", "-") and "*" in (e.t or ""):
         return _calls_in(e.c[0])
     if e.k == "ConditionalOperator":
@@ -57,8 +61,10 @@ def _calls_in(e):
     return []
 
 
-def _is_input_member_sum(e, fn):
-    """`r->data + ...` where r is a pointer parameter of fn and the member is a pointer to const bytes"""
+def _is_input_member_sum(e, fn, P=None):
+    """`r->data + ...` where r is a pointer parameter of fn, the member is a pointer to const bytes and r's record is a cursor
+    over input bytes: it also has a position and a size member (carquet_buffer_reader: data / size / pos). A pointer into
+    storage the reader owns for as long as it lives (its dictionary, a decoded page) is not a pointer into the parser's input."""
     e = _strip(e)
     if e is None or e.k != "BinaryOperator" or e.op != "+":
         return False
@@ -66,7 +72,13 @@ def _is_input_member_sum(e, fn):
     if m is None or m.k != "MemberExpr" or "const" not in (m.t or "") or "*" not in (m.t or ""):
         return False
     b = _strip(m.c[0]) if m.c else None
-    return b is not None and b.k == "DeclRefExpr" and b.get("dk") == "param"
+    if not (b is not None and b.k == "DeclRefExpr" and b.get("dk") == "param"):
+        return False
+    rec = P.records.get(m.get("rec")) if P is not None and m.get("rec") else None
+    if rec is None:
+        return False
+    names = set(f.get("n") for f in rec.get("fields", []))
+    return bool(names & {"pos", "position", "offset"}) and bool(names & {"size", "len", "length"})
 
 
 class Analysis:
@@ -94,8 +106,14 @@ class Analysis:
                     l = _strip(n.c[0])
                     if l is not None and l.k == "DeclRefExpr" and l.get("dk") == "local":
                         pairs = [(l.get("d"), n.c[1])]
+                    elif l is not None and l.k == "MemberExpr" and not l.get("arrow"):
+                        # `span.data = p`: the struct variable now carries the pointer
+                        b_ = [r for r in _base_ref(l) if r.get("dk") == "local"]
+                        if b_ and "*" in (n.c[1].t or ""):
+                            pairs = [(b_[0].get("d"), n.c[1])]
                 for d, init in pairs:
-                    if d in t or "*" not in (init.t or ""):
+                    if d in t or ("*" not in (init.t or "") and not any(self._is_borrow_call(c) for c in _calls_in(init))
+                                  and not any(r.get("d") in t for r in _base_ref(init))):
                         continue
                     srcs = [c for c in _calls_in(init) if self._is_borrow_call(c)]
                     if srcs:
@@ -119,11 +137,28 @@ class Analysis:
                 return t[r.get("d")]
         return None
 
+    def _private_out_param(self, f, l):
+        """`out->ptr = p` / `*out = p` where out is a parameter of a static helper and points to a type that is private to
+        the source file (a slice / span struct of the parser, or a plain pointer local of the caller): the value travels back
+        to the caller like a return value - what the caller does with it is judged there, through the caller's own stores."""
+        x = l
+        while x is not None and x.k in ("MemberExpr", "ArraySubscriptExpr", "ParenExpr", "ImplicitCastExpr", "CStyleCastExpr") and x.c:
+            x = x.c[0]
+        if x is not None and x.k == "UnaryOperator" and x.op == "*" and x.c:
+            x = _strip(x.c[0])
+        if x is None or x.k != "DeclRefExpr" or x.get("dk") != "param" or not f.static:
+            return False
+        m = l if l.k == "MemberExpr" else None
+        if m is None:
+            return True          # `*out = p` with out a parameter of a static helper
+        rec = self.P.records.get(m.get("rec")) if m.get("rec") else None
+        return rec is not None and str(rec.get("file", "")).endswith(".c")
+
     def _solve(self):
         P = self.P
         for f in self.fns:
             for r in f.returns():
-                if r.c and r.c[0] is not None and _is_input_member_sum(r.c[0], f):
+                if r.c and r.c[0] is not None and _is_input_member_sum(r.c[0], f, P):
                     self.borrowing.add((f.name, f.file))
         changed = True
         rounds = 0
@@ -131,7 +166,7 @@ class Analysis:
             changed = False
             rounds += 1
             for f in self.fns:
-                if (f.name, f.file) in self.borrowing or "*" not in (f.ret or ""):
+                if (f.name, f.file) in self.borrowing or (f.ret or "").strip() in ("void", "int", "_Bool", "bool", "carquet_status_t", "size_t", "int32_t", "int64_t", "uint32_t", "uint64_t"):
                     continue
                 t = self.tainted_locals(f)
                 for r in f.returns():
@@ -149,10 +184,14 @@ class Analysis:
                 l = _strip(n.c[0])
                 if l is None or (l.k == "DeclRefExpr" and l.get("dk") == "local"):
                     continue
+                if l.k == "MemberExpr" and not l.get("arrow") and any(r.get("dk") == "local" for r in _base_ref(l)):
+                    continue
                 if "*" not in (n.c[1].t or ""):
                     continue
                 c = self._borrowed_expr(f, n.c[1], t)
                 if c is not None:
+                    if self._private_out_param(f, l):
+                        continue
                     out.append((n, "stored through `%s`" % src(l)[:40], c))
         return out, t
 
